@@ -45,6 +45,11 @@ def recordedC14_holdExtraction : List (Nat × Nat) :=
 theorem C14_no_hold_extraction_partial :
     c14_holdExtraction.all (fun x => recordedC14_holdExtraction.contains x) = true := by decide +kernel
 
+-- @theorem C14_keyless_holds_only_in_debug_partial : PARTIAL — the only code that takes a lock without a key and then runs user code while holding it is the recorded one (finding D13: Debug::fmt of Mutex and RwLock, to which the collections and Poisonable forward); the set is non-empty on the current tree
+theorem C14_keyless_holds_only_in_debug_partial :
+    c14_debugHoldsWithoutKey.all (fun x => [(Sym.Mutex, Sym.fmt), (Sym.RwLock, Sym.fmt)].contains x) = true := by
+  decide +kernel
+
 -- @theorem C14_discipline_gives_at_most_one_key : with keys unforgeable, uncopyable and consumed by every acquiring call (the table theorems above), client histories are the linear token histories of the model, for which the key refinement holds (at most one token; flag set iff a token exists; get succeeds iff none) — this is C06's theorem, restated here as the consequence
 theorem C14_discipline_gives_at_most_one_key (C : Ctx) (prog : List Stmt) :
     wp KeySpec (program C prog {}) (fun u' g' => KeyInv u' g') (fun (_ : Unit) (_ : KG) => True) {} :=
